@@ -80,6 +80,16 @@ DecompressOK(pre, post) ==
     /\ (pre.filters # <<>> /\ Decodable(pre)) => ((post.filters = <<>> /\ post.content = View(pre).data)
                                                     \/ (pre.ind # "none" /\ post = pre))         \* refused: nothing touched
 
+\* Document level.  A call that holds the Document (Document::decompress, Document::get_page_content, ...) has every
+\* referenced object at hand: the references are resolved, then the Stream contract applies - refusing is no longer
+\* acceptable there, and an undecoded stream handed out as content is a wrong decode.
+Resolved(s) == [s EXCEPT !.ind = "none"]
+DocDecompressOK(pre, post) == DecompressOK(Resolved(pre), post)
+\* a logged result [ok, data] of a Document-level read of the stream's data (get_page_content: one separator byte
+\* may follow): Ok means the decoded data
+DocReadAgrees(s, r) ==
+    (s.filters # <<>> /\ Decodable(s) /\ r.ok) => (r.data = View(s).data \/ (r.data # <<>> /\ SubSeq(r.data, 1, Len(r.data) - 1) = View(s).data))
+
 \* a logged decode result [ok, data] of the stream (decompressed_content / get_plain_content)
 \* (for a chain of zero filters decompressed_content has a result only in the spelling /Filter []; it is
 \*  the content: ISO 32000-1 Table 5 "an array of zero, one or several names")
@@ -146,8 +156,10 @@ ImplDecompressT(s, rows, devRows) ==
 
 \* Document::compress honours allows_compression, Stream::compress does not
 ImplDocCompress(ss, cs, devStale) == [i \in 1..Len(ss) |-> IF ss[i].allows THEN ImplCompress(ss[i], cs[i], devStale) ELSE ss[i]]
-ImplDocDecompress(ss, devAvg, devArr, devNul, devEmpty, devInd) ==
-    [i \in 1..Len(ss) |-> ImplDecompress(ss[i], devAvg, devArr, devNul, devEmpty, devInd)]
+\* Document::decompress resolves the references first (devDocInd = TRUE, open finding doc-indirect.*: it does not -
+\* Stream::decompress refuses, the error is discarded and the stream stays encoded)
+ImplDocDecompress(ss, devAvg, devArr, devNul, devEmpty, devInd, devDocInd) ==
+    [i \in 1..Len(ss) |-> ImplDecompress(IF devDocInd THEN ss[i] ELSE Resolved(ss[i]), devAvg, devArr, devNul, devEmpty, devInd)]
 
 -----------------------------------------------------------------------------
 (* Classes of input on which the code deviated before the fix: commits (narrow signatures of  *)
@@ -175,7 +187,7 @@ KnownClasses(s, op) ==
              /\ PredictorInput(s).ok /\ HasAvgRow(PredictorInput(s).data, RowLen(ParmFor(s, 1)))
           THEN {"png.avg"} ELSE {})
     \cup (IF s.filters = <<>> /\ s.ff = "array" /\ s.content # <<>> THEN {"filter.empty-array"} ELSE {})
-    \cup (IF s.ind # "none" THEN {"indirect." \o s.ind} ELSE {})
+    \cup (IF s.ind # "none" THEN {IF op \in {"doc_decompress", "doc_read"} THEN "doc-indirect." \o s.ind ELSE "indirect." \o s.ind} ELSE {})
 
 \* the switches that reproduce class k in the impl-shaped layer
 IndirectClasses == {"indirect.filter", "indirect.filter-elem", "indirect.parms", "indirect.parms-elem", "indirect.value"}
